@@ -1135,6 +1135,8 @@ func (fc *FnCtx) anchorOf(in ssa.Instruction) (string, string, bool) {
 		return "select", fc.srcText(x.Pos()), true
 	case *ssa.MakeSlice:
 		return "make", fc.srcText(x.Pos()), true
+	case *ssa.MakeChan:
+		return "make", fc.srcText(x.Pos()), true
 	case *ssa.Next:
 		return "next", fc.nextText(x), true
 	case *ssa.UnOp:
